@@ -71,6 +71,7 @@ def make_ops(w, full):
                 (b'PRINT CHR$(10);', ('C', 10)),
                 (b'LOCATE 25,1', ('L', 25, 1)), (b'LOCATE 24,%d' % w, ('L', 24, w)), (b'LOCATE 3,1', ('L', 3, 1)),
                 (b'CLS', ('S', 'CLS')), (b'VIEW PRINT 2 TO 4', ('V', 2, 4)), (b'VIEW PRINT', ('V', None, None)),
+                (b'VIEW PRINT 4 TO 2', ('V', 4, 2)),
                 (b'WIDTH 40', ('S', 'WIDTH')), (b'WIDTH 80', ('S', 'WIDTH'))]
     lens = (1, w - 1, w, w + 1, 2 * w) if full else (1, w - 1, w, w + 1)
     for i, n in enumerate(lens):
@@ -94,6 +95,8 @@ def make_ops(w, full):
     ops.append((b'CLS', ('S', 'CLS')))
     ops.append((b'VIEW PRINT 2 TO 4', ('V', 2, 4)))
     ops.append((b'VIEW PRINT', ('V', None, None)))
+    # bottom above top: refused
+    ops.append((b'VIEW PRINT 4 TO 2', ('V', 4, 2)))
     if full:
         ops.append((b'WIDTH 40', ('S', 'WIDTH')))
         ops.append((b'WIDTH 80', ('S', 'WIDTH')))
@@ -311,6 +314,10 @@ class Rig(object):
             elif not (kind == 'S' and spec[1] == 'WIDTH') and now_window != before_window:
                 viols.append(('view/window-changed-by-%s' % name, 'after %r the scroll window is %r, was %r' % (
                     stmt, now_window, before_window)))
+        elif now_window != before_window:
+            # a statement that was refused has not touched the scroll window
+            viols.append(('view/window-changed-by-refused-%s' % name, '%r was refused (error %r) but the scroll window is %r, was %r' % (
+                stmt, r.err, now_window, before_window)))
         if (csr, pos) not in self.model.cursor_reports() and self.model.in_window():
             stale = self.ts.overflow and self.ts.current_col != w
             viols.append(('cursor/report-differs/%s/%s' % (
